@@ -28,7 +28,7 @@ func checkC13(c *Ctx) {
 	a := &c13{c: c, info: c.P.Pkg("geom").TypesInfo}
 	c13model(c)
 	a.members()
-	checkSegmentDistance(c, "C13.R5")
+	segDistModel(c, "C13.R5")
 	a.exactCrossing()
 	c.Floor("C13.R6", 1)
 	c.Floor("C13.R5", 1)
